@@ -353,6 +353,9 @@ func StructFieldsAsArgumentsAction(explicitFields ...string) RewriteAction {
 
 		if len(oldArgs) > 1 {
 			newOpt.Args = append(newOpt.Args, oldArgs[1:]...)
+		}
+		// an option can have more assignments than arguments (constants added by add_assignment)
+		if len(oldAssignments) > 1 {
 			newOpt.Assignments = append(newOpt.Assignments, oldAssignments[1:]...)
 		}
 
